@@ -242,7 +242,7 @@ def run(ctx):
     tailfn = P("tailfn")
     f = p.get_function(WB + "stress._stress_iteration_function")
     lz = P("log_z0")
-    for kind in ("u10", "friction_velocity"):
+    for kind in ("u10", "friction_velocity", "ustar"):       # "ustar" is the accepted alias of "friction_velocity" in every kernel
         it4 = kernel_interp(p, {WB + "stress._total_stress_point": "total_stress", WIND: "windfn"})
         r = T.to_term(it4.call_function(f, [lz, E, wind(kind), DEPTH, windfn, tailfn, GRID, PAR, P("work")], {}, None))
         ts = T.find_ops(r, "total_stress")
@@ -351,4 +351,4 @@ def run(ctx):
     ctx.absorb(it2)
     ctx.require_count("R10.1", 8)
     ctx.require_count("R10.2", 4)
-    ctx.require_count("R10.3", 10)
+    ctx.require_count("R10.3", 12)
